@@ -186,7 +186,55 @@ K_INPUT = dict(name="K-core::input", package="rustzx-core", features="full",
                           "kempston_mouse": ["KempstonMouse::send_button", "KempstonMouse::send_wheel", "KempstonMouse::send_pos_diff", "KempstonMouse::default"]},
                assumptions=CORE_ASSUME + ["libm::sqrt stubbed while constructing the controller (AY pan gains only)"])
 
+Z80_ASSUME = [
+    "Kani harnesses run on an add-only overlay of a scratch copy of /repo (kani/inject.py): cfg-guarded accessors Regs::verif_get/verif_set, Z80::verif_active_prefix/verif_set_active_prefix/verif_im",
+    "reference semantics kani/z80/reference.rs (independent NMOS Z80 model written from documentation: Zilog manual, undocumented-Z80 notes, MEMPTR/Q research, block-I/O flag research) is the specification",
+    "reachable-state invariant of Z80 as precondition: active_prefix in {None,DD,ED,FD}; active_prefix != None => skip_interrupt; halted => no pending prefix and the byte at PC is 0x76; IM <= 2",
+    "Q after a repeating LDIR/LDDR/CPIR/CPDR iteration is not compared (undocumented; unobservable unless the block op overwrites its own opcode)",
+    "NMI while the EI/DI/prefix shadow is active follows the implementation's step structure (statement silent)",
+    "order of bus events inside interrupt entry follows the implementation (statement gives totals 13/19/11 only)",
+]
+Z80_FUNCS = ["Z80::emulate", "Z80::handle_interrupt", "Z80::fetch_byte/fetch_word", "execute_normal", "execute_extended",
+             "execute_bits", "execute_alu_8", "execute_rot", "execute_ldi_ldd", "execute_cpi_cpd", "execute_ini_ind",
+             "execute_outi_outd", "execute_push_16", "execute_pop_16", "Regs::* (all accessors used by the above)",
+             "Opcode::from_byte", "U1/U2/U3::from_byte", "Prefix::from_byte/to_byte", "tables::*", "Z80Bus default methods wait_loop/read/write/read_word/write_word"]
+Z80_INSTR = ["plain_all", "cbx_all", "ed_all", "dd_all", "fd_all", "ddcb_idx", "fdcb_idx", "pend_dd", "pend_fd", "pend_ed",
+             "halt_enter", "halt_stay"]
+Z80_INT = ["int_nmi_intlow", "int_nmi_inthigh", "int_im0", "int_im1", "int_im2", "int_masked", "int_shadow"]
+
+
+def k_z80(name, harnesses, tier="quick"):
+    return dict(name=name, package="rustzx-z80", harnesses=harnesses, flags=["--solver", "cadical"], jobs=6,
+                functions={"*": Z80_FUNCS}, assumptions=Z80_ASSUME, finder="z80", timeout=5400, tier=tier)
+
+
 PROPS = {
+    "C01": dict(
+        level="proof",
+        claim="Kani/CBMC proof of step equivalence: for every CPU state (all registers incl. MEMPTR, Q, alternates, IFF, IM, pending prefix, EI shadow) and every bus answer, one call of the real Z80::emulate yields the same final state and the same ordered memory/port transfers (address, data) as one step of an independent reference NMOS-Z80 semantics; one loop-free full-domain harness per prefix class (unprefixed, CB, ED, DD, FD, DDCB, FDCB, pending-prefix continuations, HALT), covering all 1792 encodings. Sequences follow by induction over steps since equivalence holds from every state.",
+        note="Complete (no bound: 8/16-bit domains, wait loops of constant length unwound with unwinding assertions). Trusted: the reference model; state invariant precondition; Q waiver after repeating LDxR/CPxR. Two defects found and repaired (MEMPTR after LD (nn),A and OUT (n),A).",
+        kani=[k_z80("K-z80::instr", Z80_INSTR)],
+        explanation="real emulate on a recording bus vs reference step replayed against the recorded log",
+        technique="contract-based deductive verification: Kani/CBMC loop-free full-domain harnesses asserting the postcondition 'emulate == reference step' on the real crate (bit-precise, complete)",
+    ),
+    "C02": dict(
+        level="proof",
+        claim="Kani/CBMC proof of step equivalence restricted to interrupt/NMI/HALT/prefix sequencing: acceptance only with IFF1 set and no EI/DI/prefix shadow (the shadow is part of the compared state, so 'never directly after EI/DI' and 'never inside a prefix chain' hold by induction), IFF1/IFF2 effects, HALT release with return address behind the HALT, vectors 0x0038 / word at I*256+bus byte / 0x0066, halted CPU re-executing HALT advancing only R, RETN/RETI copying IFF2 (ED group), prefix-chain steps (DD/FD/ED after DD/FD) setting the shadow.",
+        note="Complete over register state; the acceptance-deciding control inputs (shadow flag, line levels, IFF1, IM2-or-not) are enumerated concretely per harness so all combinations are covered by the six int_* harnesses + the instruction groups (lines low). First handler instruction fixed to NOP (instruction space is C01's).",
+        kani=[k_z80("K-z80::int", Z80_INT + ["halt_enter", "halt_stay", "pend_dd", "pend_fd", "pend_ed"]),
+              k_z80("K-z80::chain", ["dd_all", "fd_all", "ed_all", "plain_all"], tier="thorough")],
+        explanation="interrupt acceptance rules as part of the reference step; induction over steps",
+        technique="contract-based deductive verification: Kani/CBMC loop-free full-domain harnesses (bit-precise, complete)",
+    ),
+    "C03": dict(
+        level="proof",
+        claim="Kani/CBMC proof that for every encoding, state and bus answer the complete sequence of bus cycles of the real Z80::emulate (kind: MREQ wait / no-MREQ single T-state / internal wait / read / write / port in / port out / int-ack, address, clocks) and the T-state total equal the reference's documented machine-cycle script: 4-T fetches, 3-T reads/writes, internal T-states carrying IR/PC/HL/DE/BC/SP/indexed addresses, taken/not-taken forms, every repeat iteration of the block instructions, interrupt entry 13/19/11.",
+        note="Port cycles are single read_io/write_io calls whose 4 T are C04's obligation. Reference scripts are the trusted specification. quick runs the unprefixed/CB/ED/DDCB classes and interrupt entry; thorough adds DD/FD/FDCB/pending-prefix classes.",
+        kani=[k_z80("K-z80::timing", ["plain_all", "cbx_all", "ed_all", "ddcb_idx", "halt_stay"] + Z80_INT),
+              k_z80("K-z80::timing-idx", ["dd_all", "fd_all", "fdcb_idx", "pend_dd", "pend_fd", "pend_ed", "halt_enter"], tier="thorough")],
+        explanation="bus-cycle trace equality against the reference",
+        technique="contract-based deductive verification: Kani/CBMC loop-free full-domain harnesses (bit-precise, complete)",
+    ),
     "C08": dict(
         level="proof",
         claim="Deductive proof (Verus): the address helpers are the inverse of the statement's offset formula (bijection lemma); ZXScreen::update changes exactly the shadow cell whose display offset is written; process_clocks draws exactly the blocks the beam passed since the previous call, each pixel = bit 7-(x mod 8) coloured by ink/paper/BRIGHT/FLASH of its attribute (nested loop invariants over a ghost pixel map); new_frame delivers the back buffer and toggles the flash phase every 16 frames; lemmas: a bus write keeps shadow == RAM (invariant K), a full pass over an unchanged shadow yields the standard decode of RAM. write_internal forwards every RAM write through any window to the screen (ghost call log); a syntactic frame obligation requires every behind-the-bus RAM writer to refresh the shadow.",
